@@ -23,7 +23,8 @@ func FuzzSegmentation(f *testing.F) {
 		if len(data) < 2 || len(data) > 1<<15 {
 			return
 		}
-		c := Case{Client: client, Stream: data, Cuts: vlib.CutsFromSeed(len(data), seed), Mutated: true, Preview: vlib.Preview(data, 200)}
+		c := Case{Client: client, Stream: data, Cuts: vlib.CutsFromSeed(len(data), seed), Mutated: true, Preview: vlib.Preview(data, 200),
+			MaxBody: []int{0, 0, 16, 64}[int(seed>>8)%4]}
 		if res := runCase(c); res.Err != nil {
 			p := vlib.FuzzFail("C06", "segmentation", c, res.Err.Error())
 			t.Fatalf("%v (replay %s)", res.Err, p)
